@@ -1098,3 +1098,261 @@ class calculate_text_segments_any:
             idx = cur().ghost.get("exit_locals", {}).get("idx")
             t = a.text
             yield "cannot-display-only-a-character-wider-than-the-width", False if idx is None else both(0 <= idx, idx < tlen(t), W(t, idx + 1) - W(t, idx) > a.width)
+
+
+# ---- StandardTextLayout._calculate_trimmed_segments ('clip' / 'ellipsis')
+
+from pyvc.seqs import ModelObj  # noqa: E402
+
+UT = "urwid/util.py:"
+from pyvc.shapes import opaque_sort  # noqa: E402
+
+ENCODING = Opaque("Encoding")
+PROTOCOLS.setdefault("Encoding", type("EncodingProtocol", (Protocol,), {"kind": "Encoding", "methods": {}})())
+_EWF = z3.Function("ellipsis.width", opaque_sort("Encoding"), z3.IntSort(), z3.IntSort())
+
+
+def mark_width(enc, length):
+    """Columns of the first `length` characters of the ellipsis mark, encoded for `enc` (what _get_width returns):
+    uninterpreted, except that it is never negative and 0 exactly for the empty string."""
+    e = _EWF(enc.e, V._z(length))
+    cur().assume(z3.And(e >= 0, (e == 0) == (V._z(length) <= 0)))
+    return mk_int(e)
+
+
+class EllipsisStr(ModelObj):
+    """The ellipsis mark as a str: "…" or "..." or a prefix of it -- modelled by its length only (truth value,
+    `[:-1]`, `.encode(encoding)` are all the function does with it)."""
+
+    def __init__(self, length):
+        self.length = length
+
+    def py_truth(self, st):
+        return V._cmp(">", self.length, 0) if V.is_sym(self.length) else self.length > 0
+
+    def py_len(self, st):
+        return self.length
+
+    def py_getitem(self, ip, st, idx):
+        if isinstance(idx, Q.SSlice) and idx.start is None and idx.step is None and isinstance(idx.stop, int) and idx.stop == -1:
+            return EllipsisStr(imax(self.length - 1, 0))   # s[:-1]: all but the last character ("" stays "")
+        raise V.Unsupported("ellipsis string: only [:-1] is modelled")
+
+    def py_call(self, ip, st, name, args, kwargs):
+        if name == "encode" and len(args) == 1 and not kwargs:
+            return INSTEXT.fresh(st, "mark")   # some bytes object
+        raise V.Unsupported(f"ellipsis string: method {name}")
+
+    def py_havoc(self, st):
+        self.length = st.fresh_int("ell_len")
+
+
+def _fresh_ellipsis(st, hint):
+    n = st.fresh_int(hint + "_len")
+    st.assume(either(n == 1, n == 3))
+    return EllipsisStr(n)
+
+
+@contract(TL + "get_ellipsis_string", property=(), assumed=True,
+          notes="codec round trip of U+2026 (external: the codec registry): returns the one-character mark, or '...' where the "
+                "encoding cannot express it; only its length (1 or 3) is modelled")
+class get_ellipsis_string:
+    params = dict(encoding=ENCODING)
+    result = Custom(_fresh_ellipsis, "EllipsisStr")
+    raises = ()
+
+
+@contract(TL + "_get_width", property=(), assumed=True,
+          notes="string.encode(encoding) (external codec) measured by calc_width on the bytes: trusted to be >= 0 and 0 exactly for "
+                "the empty string (every character of '…' / '...' takes at least one column in every encoding); a function of "
+                "the encoding and the string")
+class get_width_of_mark:
+    params = dict(string=Custom(_fresh_ellipsis, "EllipsisStr"), encoding=ENCODING)
+    result = Int
+    raises = ()
+    pure_spec = staticmethod(lambda a: mark_width(a.encoding, a.string.length))
+
+
+def _lru_cached_callee(ip, st, f, args, kwargs):
+    """`get_ellipsis_string` is wrapped by functools.lru_cache (an object, not a function the engine can map to its
+    AST): a call of the wrapper is a call of the function under its (assumed) contract -- caching a pure function
+    does not change its results."""
+    if f is _tl.get_ellipsis_string:
+        from pyvc import source as SRC
+        from pyvc.interp import FnVal
+        return get_ellipsis_string.apply(ip, st, FnVal(SRC.resolve(TL + "get_ellipsis_string")), args, kwargs, site="lru_cache")
+    return NotImplemented
+
+
+def _ctt_combined_ens(a, result):
+    """calc_trim_text's contract (contracts/C11_width.py) plus the clause proved under the alias below."""
+    from contracts.C11_width import calc_trim_text as _c11
+    yield from _c11._gen(_c11.ensures(a, result))
+    yield from _ctt_no_left_trim(a, result)
+
+
+def _ctt_no_left_trim(a, result):
+    spos, pos, pl, pr = result
+    yield "no-left-trim-when-the-range-starts-at-column-0", implies(a.start_col == 0, both(spos == a.start_offs, pl == 0))
+
+
+from contracts.C11_width import calc_trim_text as _c11_ctt, ENC as _ENC  # noqa: E402
+
+
+@contract(UT + "calc_trim_text", property="C03", replayable=False, alias="no-left-trim", globals_=_ENC)
+class calc_trim_text_no_left_trim:
+    """One more clause on calc_trim_text, proved against its body under the same precondition as the C11 contract:
+    a range that starts at column 0 is not trimmed on the left (what _calculate_trimmed_segments checks defensively)."""
+    params = _c11_ctt.params
+    result = _c11_ctt.result
+    raises = ()
+    requires = staticmethod(_c11_ctt.requires)
+    ensures = staticmethod(_ctt_no_left_trim)
+
+
+class _CttCombined(type(_c11_ctt)):
+    pass
+
+
+calc_trim_text_combined = _CttCombined()
+calc_trim_text_combined.__dict__.update({k: v for k, v in _c11_ctt.__dict__.items()})
+calc_trim_text_combined.ensures = _ctt_combined_ens
+calc_trim_text_combined.ensures_callee = None
+
+
+# Paragraphs of a text (spec functions, defined by recursion on the paragraph number; the definitional axioms are
+# instantiated groundly by par_unfold / par_min):
+#   PAR(0) = 0,   NLP(k) = the first newline at or after PAR(k), len(text) when there is none,   PAR(k+1) = NLP(k) + 1
+def PAR(text, k):
+    return mk_int(z3.Function(f"{text.name}$PAR", z3.IntSort(), z3.IntSort())(V._z(k)))
+
+
+def NLP(text, k):
+    return mk_int(z3.Function(f"{text.name}$NLP", z3.IntSort(), z3.IntSort())(V._z(k)))
+
+
+def par_unfold(text, k):
+    n = tlen(text)
+    st = cur()
+    st.assume(PAR(text, 0) == 0)
+    st.assume(implies(both(k >= 0, PAR(text, k) <= n), both(
+        PAR(text, k) <= NLP(text, k), NLP(text, k) <= n, implies(NLP(text, k) < n, is_nl(text, NLP(text, k))), PAR(text, k + 1) == NLP(text, k) + 1)))
+
+
+def par_min(text, k, q):
+    """Instance at position q of: no newline in [PAR(k), NLP(k))."""
+    cur().assume(implies(both(k >= 0, PAR(text, k) <= q, q < NLP(text, k)), neg(is_nl(text, q))))
+
+
+def trimmed_line_ok(row, text, width, wrap, ew, P=None, N=None):
+    """A line of 'clip' / 'ellipsis' wrapping, for the paragraph text[P:nl]:
+      * not cut: [(sc, P, nl), (0, nl)] -- the run missing when the paragraph has no columns;
+      * 'ellipsis' and wider than the width: [(sc, P, e), (ew, e, mark), (pad, e)] -- the run missing when nothing fits
+        before the mark --, sc + ew + pad == width: the part beyond the width is replaced by the mark."""
+    ns = n_segs(row)
+    e0, e1, e2 = seg_at(row, 0), seg_at(row, 1), seg_at(row, 2)
+    n = tlen(text)
+
+    def end_marker(e, at, cols=None):
+        return both(neg(seg_is_run(e)), seg_sel(e, lambda t: len(t) == 2), seg_has_offs(e), val(seg3_offs(e)) == at, seg_cols(e) == (0 if cols is None else cols))
+
+    def mark(e, at):
+        return both(seg_sel(e, lambda t: len(t) == 3 and not V.is_num(t[2])), seg_cols(e) == ew, val(seg3_offs(e)) == at)
+
+    def run(e):
+        return both(seg_is_run(e), seg_cols(e) > 0, run_ok(text, seg_cols(e), val(seg3_offs(e)), seg3_end(e)))
+
+    o0 = val(seg3_offs(e0))
+    if P is not None:
+        # the line is the one of the paragraph text[P:N]
+        too_wide = W(text, N) - W(text, P) > width
+        whole = neg(both(wrap == "ellipsis", too_wide, ew > 0))
+        whole_with_run = both(ns == 2, run(e0), o0 == P, seg3_end(e0) == N, end_marker(e1, N), whole)
+        whole_no_run = both(ns == 1, end_marker(e0, N), W(text, N) == W(text, P), whole)
+        pad1, pad2 = seg_cols(e1), seg_cols(e2)
+        tail = lambda e: both(neg(seg_is_run(e)), seg_sel(e, lambda t: len(t) == 2), seg_has_offs(e))  # noqa: E731
+        cut_with_run = both(ns == 3, run(e0), o0 == P, seg3_end(e0) <= N, mark(e1, seg3_end(e0)), tail(e2), val(seg3_offs(e2)) == seg3_end(e0),
+                            either(pad2 == 0, pad2 == 1), seg_cols(e0) + ew + pad2 == width)
+        cut_no_run = both(ns == 2, mark(e0, o0), tail(e1), val(seg3_offs(e1)) == o0, P <= o0, o0 <= N, W(text, o0) == W(text, P),
+                          either(pad1 == 0, pad1 == 1), ew + pad1 == width)
+        return either(whole_with_run, whole_no_run, both(wrap == "ellipsis", ew > 0, too_wide, either(cut_with_run, cut_no_run)))
+    whole_with_run = both(ns == 2, run(e0), end_marker(e1, seg3_end(e0)))
+    whole_no_run = both(ns == 1, end_marker(e0, o0), 0 <= o0, o0 <= n)
+    pad1 = seg_cols(e1)
+    pad2 = seg_cols(e2)
+    cut_with_run = both(ns == 3, run(e0), mark(e1, seg3_end(e0)), neg(seg_is_run(e2)), seg_sel(e2, lambda t: len(t) == 2), seg_has_offs(e2), val(seg3_offs(e2)) == seg3_end(e0),
+                        either(pad2 == 0, pad2 == 1), seg_cols(e0) + ew + pad2 == width)
+    cut_no_run = both(ns == 2, mark(e0, o0), neg(seg_is_run(e1)), seg_sel(e1, lambda t: len(t) == 2), seg_has_offs(e1), val(seg3_offs(e1)) == o0, 0 <= o0, o0 <= n,
+                      either(pad1 == 0, pad1 == 1), ew + pad1 == width)
+    cut = both(wrap == "ellipsis", ew > 0, either(cut_with_run, cut_no_run))
+    return either(whole_with_run, whole_no_run, cut)
+
+
+def _cts2_shorten_inv(v):
+    L = v.ellipsis_string.length
+    yield "mark-is-a-prefix-of-the-ellipsis", both(0 <= L, L <= 3)
+    yield "width-is-the-marks", v.ellipsis_width == mark_width(v.encoding, L)
+
+
+def _cts2_main_inv(v):
+    segs, t, idx = v.segments, v.text, v.idx
+    n = tlen(t)
+    m = Q.seq_len(segs)
+    L = v.ellipsis_string.length
+    ew = v.ellipsis_width
+    yield "idx-within-the-text-or-just-past-it", both(0 <= idx, idx <= n + 1)
+    yield "mark-fits-beside-one-column-or-is-empty", both(ew == mark_width(v.encoding, L), either(ew <= v.width - 1, ew == 0))
+    k = V.arbitrary("line")
+    for q in (m, m - 1, k):
+        par_unfold(t, q)
+    if "nl_pos" in v and V.is_num(v.nl_pos):
+        # the newline position the iteration just executed found IS NLP(m - 1): both are the first newline at or after
+        # PAR(m - 1) (instances of the two minimality facts at each other's position)
+        par_min(t, m - 1, v.nl_pos)
+        V.instantiate(NLP(t, m - 1))
+    yield "idx-is-the-start-of-the-next-paragraph", idx == PAR(t, m)
+    if isinstance(segs.seq, tuple) and not segs.seq:
+        return
+    # instances of the monotonicity lemma for the width prefix sums, at the offsets of the last line
+    last = _row(segs, m - 1)
+    for x in (val(seg3_offs(seg_at(last, 0))), seg3_end(seg_at(last, 0)), NLP(t, m - 1)):
+        w_mono(t, PAR(t, m - 1), x)
+        w_mono(t, x, NLP(t, m - 1))
+    yield "line-k-is-paragraph-k-whole-or-cut-with-the-mark", implies(both(0 <= k, k < m), trimmed_line_ok(_row(segs, k), t, v.width, v.wrap, ew, PAR(t, k), NLP(t, k)))
+
+
+def _cts2_ens(old, s, a, result, callee=False):
+    t = a.text
+    m = Q.seq_len(result)
+    loc = cur().ghost.get("exit_locals", {})
+    ew = cur().fresh_int("mark_width") if callee or "ellipsis_width" not in loc else loc["ellipsis_width"]
+    for q in (m, m - 1):
+        par_unfold(t, q)
+    yield "one-line-per-paragraph-of-the-text", both(m >= 1, PAR(t, m) == tlen(t) + 1)
+    yield "mark-fits-beside-one-column-or-is-unused", either(both(0 < ew, ew <= a.width - 1), ew <= 0)
+    ok = lambda k: trimmed_line_ok(_row(result, k), t, a.width, a.wrap, ew, PAR(t, k), NLP(t, k))  # noqa: E731
+    if callee:
+        yield "line-k-is-paragraph-k-whole-or-cut-with-the-mark-to-exactly-the-width", forall(0, m, ok, check_empty=False)
+    else:
+        k = V.arbitrary("line")
+        par_unfold(t, k)
+        yield "line-k-is-paragraph-k-whole-or-cut-with-the-mark-to-exactly-the-width", implies(both(0 <= k, k < m), ok(k))
+
+
+@contract(TL + "StandardTextLayout._calculate_trimmed_segments", property="C03", replayable=False,
+          inline=(UT + "get_encoding",), globals_=dict(_target_encoding=ENCODING, **_ENC))
+class calculate_trimmed_segments:
+    self_shape = STL2
+    params = dict(text=TEXT_QF, width=Int, wrap=Atom("clip", "ellipsis"))
+    result = LAYOUT
+    raises = ()
+    modifies = ()
+    contract_overrides = {UT + "calc_trim_text": calc_trim_text_combined}
+    call_real = staticmethod(_lru_cached_callee)
+    ensures = staticmethod(_cts2_ens)
+    ensures_callee = staticmethod(lambda old, s, a, result: _cts2_ens(old, s, a, result, True))
+    loops = {0: Loop(invariant=_cts2_shorten_inv, decreases=lambda v: v.ellipsis_string.length),
+             1: Loop(invariant=_cts2_main_inv, decreases=lambda v: tlen(v.text) + 1 - v.idx, shapes={"segments": LAYOUT})}
+
+    def requires(s, a):
+        return a.width >= 0
